@@ -268,6 +268,8 @@ def feature_matrix_spec():
     paths["/shared2/out"] = {"get": {"operationId": "shared2_out", "responses": {"200": {"description": "ok", "content": {"application/json": {"schema": R("Shared2Leaf")}}}}}}
     paths["/shared2/in"] = {"post": {"operationId": "shared2_in", "requestBody": {"required": True, "content": {"application/json": {"schema": R("Shared2InBag")}}}, "responses": {"204": {"description": "n"}}}}
     # unions whose variants are containers of a struct (helper constructors are generated for struct variants)
+    paths["/formats"] = {"put": {"operationId": "put_formats", "requestBody": {"required": True, "content": {"application/json": {"schema": R("Formats")}}},
+                                 "responses": {"200": {"description": "ok", "content": {"application/json": {"schema": R("User")}}}}}}
     paths["/either"] = {"post": {"operationId": "post_either", "requestBody": {"required": True, "content": {"application/json": {"schema": R("EitherItems")}}},
                                  "responses": {"200": {"description": "ok", "content": {"application/json": {"schema": R("EitherItems")}}}}}}
     mapbag = lambda leaf, leaf2: {"type": "object", "properties": {     # reached ONLY through map values
@@ -282,6 +284,13 @@ def feature_matrix_spec():
                                                                                              "sub": {"$ref": "#/components/schemas/Sub"}}},
                                        "Sub": {"type": "object", "properties": {"k": {"type": "string", "enum": ["a", "b"]}}},
                                        "OutBag": bag("OutLeaf", "OutKind"), "InBag": bag("InLeaf", "InKind"),
+                                       # string formats next to string constraints (the constraints only apply to plain strings), required and optional
+                                       "Formats": {"type": "object", "required": ["d1", "t1", "u1", "dur1", "b1"], "properties": dict(
+                                           [(f"{n}{k}", dict({"type": "string", "format": f}, **c)) for n, f in (("d", "date"), ("t", "date-time"), ("u", "uuid"), ("dur", "duration"), ("b", "byte"), ("tm", "time"), ("uri", "uri"), ("em", "email"), ("ip", "ipv4"))
+                                            for k, c in ((1, {}), (2, {"minLength": 1, "maxLength": 40}), (3, {"pattern": "^[A-Za-z0-9:.-]+$"}))])},
+                                       # members whose regex constants derive the same name from different patterns
+                                       "User": {"type": "object", "properties": {"profile_name": {"type": "string", "pattern": "^[a-z]+$"}, "profile": R("UserProfile")}},
+                                       "UserProfile": {"type": "object", "properties": {"name": {"type": "string", "pattern": "^[A-Z][a-z]+$"}, "nick": {"type": "string", "pattern": "^[a-z]+$"}}},
                                        "EitherItems": {"oneOf": [R("Shared2Leaf"), {"type": "array", "items": R("Shared2Leaf")}, {"type": "object", "additionalProperties": R("SharedLeaf")},
                                                                  {"type": "array", "items": {"type": "array", "items": R("SharedLeaf")}}]},
                                        "EitherHolder": {"type": "object", "properties": {"one": {"anyOf": [R("SharedLeaf"), {"type": "array", "items": R("SharedLeaf")}]},
